@@ -471,7 +471,7 @@ Step(st, ev) ==
     [] ev.e = "watch"   -> WatchStep(st, a)
     [] ev.e = "unwatch" -> UnwatchStep(st, a[1])
     [] ev.e = "dobj"    -> DestroyObjStep(st, a[1])
-    [] ev.e \in {"cpobj", "mvobj"}   -> NewObjFromStep(st, a[1], a[2])
+    [] ev.e \in {"cpobj", "cpobjn", "mvobj"}   -> NewObjFromStep(st, a[1], a[2])
     [] ev.e \in {"asobj", "masobj"}  -> AssignObjStep(st, a[1], a[2])
     [] ev.e = "tracer"  -> IF a[1] \in Trs /\ ~(a[1] \in Range(st.trk))
                            THEN [st |-> [st EXCEPT !.trk = Append(@, a[1])], obs |-> Obs0] ELSE Skip(st)
